@@ -280,13 +280,13 @@ def collect_sinks(F, key, summ=None, params=None):
             fact = iv.assert_facts.get(bi)
             ok = fact and fact[1]
             detail = {"ops": [list(o) if o else None for o in (fact[2] if fact else [])]}
-            sinks.append((msg, body.loc(bi), "interval analysis: operands %s cannot trip it" % detail["ops"] if ok else None, detail))
+            sinks.append((msg, body.loc(bi), "interval analysis: operands %s cannot trip it" % detail["ops"] if ok else None, dict(detail, inl=blk.get("inl"))))
         elif t["k"] == "call":
             c = t.get("callee") or ""
             m = c.split("::")[-1]
             if m in PANIC_CALLS and ("core::" in c or "std::" in c):
                 why = guarded_unwrap(body, flow, fln, bi, t) if m in ("unwrap", "expect") else None
-                sinks.append(("panic:" + m, body.loc(bi), why, {}))
+                sinks.append(("panic:" + m, body.loc(bi), why, {"inl": blk.get("inl")}))
             elif m in INDEX_CALLS and ("core::" in c or "alloc::" in c or "std::" in c) and len(t["args"]) >= 2 and (
                     m in ("index", "index_mut") or "vec::Vec" in c or "vec_deque" in c or "slice" in c or "::str::" in c or "string::String" in c):
                 why = None
@@ -295,7 +295,7 @@ def collect_sinks(F, key, summ=None, params=None):
                     if why is None:
                         # constant index into a collection whose length was just checked is left to the census
                         pass
-                sinks.append(("index:" + m, body.loc(bi), why, {}))
+                sinks.append(("index:" + m, body.loc(bi), why, {"inl": blk.get("inl")}))
             elif (m in SIZE_CALLS and ("alloc::" in c or "std::" in c or "core::" in c)) or c in ("quiver_core::binary::BinaryData::tiled", "quiver_core::binary::BinaryData::zeroed"):
                 args = iv.call_arg_facts.get(bi) or []
                 sizes = [a for a, o in zip(args, t["args"]) if a is not None and op_place(o) is not None and ty_range(body.local_ty(op_place(o)["l"])) or (o.get("c") == "const" and "val" in o)]
@@ -311,7 +311,7 @@ def collect_sinks(F, key, summ=None, params=None):
                 why = "interval analysis: size <= %s" % (size[1] if size else "?") if ok else None
                 if not ok:
                     why = checked_mul_guard(body, flow, fln, bi, t)
-                sinks.append(("alloc:" + m, body.loc(bi), why, {"size": list(size) if size else None}))
+                sinks.append(("alloc:" + m, body.loc(bi), why, {"size": list(size) if size else None, "inl": blk.get("inl")}))
             elif m in ("div", "rem", "div_assign", "rem_assign", "div_rem", "div_floor", "mod_floor", "div_euclid", "rem_euclid") and ("BigInt" in (t.get("self_ty") or "") + str(t.get("gargs")) or "num_" in c):
                 # BigInt division panics on zero: needs a dominating is_zero() test
                 z = [b2 for b2, t2 in body.calls() if (t2.get("callee") or "").split("::")[-1] == "is_zero" and body.dominates(b2, bi)]
@@ -320,7 +320,7 @@ def collect_sinks(F, key, summ=None, params=None):
                     r = body.blocks[b2]["term"]["dest"]["l"]
                     if all(explore(body, [(x, {r: 1})], want="target", targets=[bi], avoid=[b2]) is None for x in body.succ[b2]):
                         why = "divisor tested with is_zero() on every path"
-                sinks.append(("bigdiv:" + m, body.loc(bi), why, {}))
+                sinks.append(("bigdiv:" + m, body.loc(bi), why, {"inl": blk.get("inl")}))
     # loop bounds: a Range that is iterated must have a bounded end (a user-sized loop hangs the worker)
     for (bi, si), (lo, hi) in iv.range_facts.items():
         st_ = body.blocks[bi]["stmts"][si]
@@ -330,11 +330,13 @@ def collect_sinks(F, key, summ=None, params=None):
         if not iterated:
             continue   # a slice range, not a loop
         ok = hi is not None and hi[1] <= LOOP_LIMIT
-        sinks.append(("loop:range", body.loc(bi, si), "interval analysis: at most %s iterations" % (hi[1] if hi else "?") if ok else None, {"end": list(hi) if hi else None}))
+        sinks.append(("loop:range", body.loc(bi, si), "interval analysis: at most %s iterations" % (hi[1] if hi else "?") if ok else None,
+                      {"end": list(hi) if hi else None, "inl": body.blocks[bi].get("inl")}))
     for (bi, si), (frm, to, a, fits) in iv.cast_facts.items():
         fr, tr = INT_RANGES.get(frm), INT_RANGES.get(to)
         if fr and tr and (fr[0] < tr[0] or fr[1] > tr[1]):
-            sinks.append(("cast:%s->%s" % (frm, to), body.loc(bi, si), "interval analysis: value in %s fits" % (list(a),) if fits else None, {"iv": list(a)}))
+            sinks.append(("cast:%s->%s" % (frm, to), body.loc(bi, si), "interval analysis: value in %s fits" % (list(a),) if fits else None,
+                          {"iv": list(a), "inl": body.blocks[bi].get("inl")}))
     return sinks
 
 
@@ -345,8 +347,7 @@ def r1_sinks(ctx):
                 "division is discharged by an interval analysis with branch refinement (or the guarded-index pattern), or is within the reviewed "
                 "per-(function, kind) residual ceiling with its invariant; a new undischarged sink is reported")
     F = ctx.facts
-    with F.raw_mode():
-        _r1_sinks(ctx, R, F)
+    _r1_sinks(ctx, R, F)
 
 
 def _r1_sinks(ctx, R, F):
@@ -360,18 +361,14 @@ def _r1_sinks(ctx, R, F):
     summ, params = summaries(F, reach, roots)
     ctx.extra["c12_return_summaries"] = {k.split("::")[-1]: [list(x) if x else None for x in v] for k, v in sorted(summ.items())[:40]}
     ctx.extra["c12_param_ranges"] = {k.split("::")[-1]: {str(i): list(r) for i, r in v.items()} for k, v in sorted(params.items())}
-    for key in sorted(reach):
+    from rules.census import gather
+
+    def collect(key):
         try:
-            sinks = collect_sinks(F, key, summ, params)
+            return collect_sinks(F, key, summ, params)
         except RecursionError:
             raise CheckError("interval analysis did not terminate on %s" % key)
-        for kind, loc, why, detail in sinks:
-            total += 1
-            if why:
-                discharged += 1
-                ctx.ok(R, "%s|%s@auto" % (key, kind), why, loc)
-            else:
-                residual[(key, kind)].append((loc, detail))
+    residual, total, discharged = gather(ctx, R, F, reach, collect)
     ctx.extra["c12_sinks_total"] = total
     ctx.extra["c12_sinks_discharged_automatically"] = discharged
     if os.environ.get("QV_C12_GEN") == "1":
